@@ -402,17 +402,20 @@ def _sorted(interp, args, kwargs):
     key = kwargs.get("key")
     keyed = [(interp.call(key, [x], {}) if key is not None else x, x) for x in items]
     out = []
+    rev = kwargs.get("reverse")
+    if rev is not None and not isinstance(rev, (bool, int)):
+        raise Undecided("sorted() with a symbolic reverse flag")
     for k, x in keyed:            # stable insertion sort; comparisons fork
         pos = len(out)
         for i in range(len(out)):
-            if interp.truth(order(interp.rt, interp, ast.Lt(), k, out[i][0])):
+            # ascending: before the first element greater than k; reverse=True: before the first element smaller than k
+            # (equal keys keep their original order in both directions, as CPython's sort does)
+            a, b = (out[i][0], k) if rev else (k, out[i][0])
+            if interp.truth(order(interp.rt, interp, ast.Lt(), a, b)):
                 pos = i
                 break
         out.insert(pos, (k, x))
-    res = [x for _, x in out]
-    if kwargs.get("reverse"):
-        res.reverse()
-    return res
+    return [x for _, x in out]
 
 
 def _any(interp, args, kwargs):
@@ -726,8 +729,21 @@ def _list_method(rt, interp, lst, name):
     def copy(i, a, k):
         return list(lst)
 
+    def count(i, a, k):
+        return sum(1 for x in lst if i.truth(i.eq(x, a[0])))
+
+    def clear(i, a, k):
+        del lst[:]
+
+    def remove(i, a, k):
+        for j, x in enumerate(lst):
+            if i.truth(i.eq(x, a[0])):
+                del lst[j]
+                return None
+        i.raise_py("ValueError", "list.remove(x): x not in list")
+
     fns = {"append": append, "extend": extend, "insert": insert, "reverse": reverse, "pop": pop, "index": index,
-           "copy": copy}
+           "copy": copy, "count": count, "clear": clear, "remove": remove}
     if name in fns:
         return Builtin("list." + name, fns[name])
     return MISSING
@@ -1016,8 +1032,17 @@ def context_enter(rt, interp, mgr):
 
 
 def context_exit(rt, interp, mgr, exc):
+    """returns True when the manager swallows the exception"""
     if isinstance(mgr, GenCtxMgr):
         return rt.ctxmgr_exit(interp, mgr, exc)
+    if isinstance(mgr, Obj):
+        m = rt.lookup_method(mgr.cls, "__exit__")
+        if m is None:
+            if rt.is_library_obj(mgr):
+                raise Undecided("with-statement: __exit__ of the model object %s" % mgr.cls.name)
+            interp.raise_py("AttributeError", "__exit__")
+        args = [exc.cls, exc, Opaque("traceback")] if exc is not None else [None, None, None]
+        return interp.truth(interp.call(rt.bind(m, mgr), args, {}))
     return None
 
 
